@@ -28,7 +28,7 @@ REL = {1: 0.15, 2: 0.9}          # value codes of Purity!cells[..].rel
 BASE_FIX = 0.35
 X_LL = np.array([1.3, 0.9, 0.7, 0.4, 0.3, 0.2])
 PAIRS = [('ll', 'lp_same'), ('ll', 'll'), ('llfix', 'pm'), ('hlp', 'll'), ('fp', 'lp'), ('pm', 'lp'), ('hlp', 'fp'), ('ctrl', 'll'),
-         ('lp', 'ctrl'), ('fp', 'fp'), ('ppm', 'll'), ('ppm', 'ppm'), ('tg', 'pm'), ('tg', 'tg')]
+         ('lp', 'ctrl'), ('fp', 'fp'), ('ppm', 'll'), ('ppm', 'ppm'), ('tg', 'pm'), ('tg', 'tg'), ('popnc', 'popnc'), ('popnc', 'hlp')]
 
 
 def user_models():
@@ -83,6 +83,14 @@ def build(kind, u, shared=None):
         # a population model whose sampler draws from NumPy's GLOBAL generator (scipy's truncnorm): seeded sampling must
         # not depend on what else was sampled or evaluated before -- also for the seed 0
         return chi.ReducedPopulationModel(chi.TruncatedGaussianModel(n_dim=2)), np.array([1.0, 2.0, 0.5, 0.3])
+    if kind == 'popnc':
+        # a reduced population model over non-centred leaves (one scale fixed: the wrapper keeps the fixed value in a buffer
+        # it hands to the wrapped model on every call); evaluations: log-likelihood, sensitivities, individual parameters and
+        # seeded SAMPLING -- each a function of its arguments, none of them writing to what it was given
+        m = chi.ReducedPopulationModel(chi.ComposedPopulationModel([
+            chi.GaussianModel(centered=False), chi.LogNormalModel(centered=False), chi.GaussianModel()]))
+        m.fix_parameters({'Std. Dim. 1': 0.4})
+        return m, np.array([1.5, 0.2, 0.3, 1.1, 0.6])
     if kind == 'ppm':
         # a posterior predictive model over a posterior with TWO individuals: the walk samples them alternately from the
         # same object (seeded) -- what one individual's sample returns must not depend on who was sampled before
@@ -139,6 +147,19 @@ def evaluate(kind, obj, x, k):
         if kind == 'tg':
             sd = {'value': 0, 'pointwise': np.int64(0), 'S1': 7, 'sample': 0}[k]
             out = obj.sample(xin, n_samples=3, seed=sd)
+        elif kind == 'popnc':
+            eta = ETA_NC.copy()
+            if k == 'value':
+                out = np.array([obj.compute_log_likelihood(xin, eta)])
+            elif k == 'pointwise':
+                out = np.asarray(obj.compute_individual_parameters(xin, eta), dtype=float).flatten()
+            elif k == 'sample':
+                out = np.asarray(obj.sample(xin, n_samples=3, seed=0), dtype=float).flatten()
+            else:
+                sc, dpsi, dth = obj.compute_sensitivities(xin, eta)
+                out = np.concatenate([[sc], np.asarray(dpsi, dtype=float).flatten(), np.asarray(dth, dtype=float).flatten()])
+            if not np.array_equal(eta, ETA_NC):
+                raise AssertionError('observations modified')
         elif kind == 'ppm':
             who = 'a' if k in ('value', 'S1') else 'b'
             df = obj.sample(np.array([2.0, 0.5, 1.0]), n_samples=3, individual=who, seed=3)
@@ -154,13 +175,27 @@ def evaluate(kind, obj, x, k):
             out = obj.compute_pointwise_ll(xin)
         else:
             s, g = obj.evaluateS1(xin)
+            if isinstance(g, np.ndarray):
+                _RAW.append(g)
             out = np.concatenate([[s], np.asarray(g, dtype=float)])
     if not np.array_equal(xin, x):
         raise AssertionError('input vector modified')
+    if isinstance(out, np.ndarray):
+        _RAW.append(out)
     return np.asarray(out, dtype=float)
 
 
+# the array OBJECTS the last evaluation handed to its caller (results are values: they are kept by the walk and compared with
+# their own copies after the objects have been evaluated again, at another point)
+_RAW = []
+
+
+ETA_NC = np.array([[0.3, -0.2, 1.4], [-0.5, 0.1, 0.9], [0.8, 0.4, 1.7]])
+
+
 def eff_kind(kind, k):
+    if kind == 'popnc':
+        return k
     if kind == 'tg':
         return 'seed7' if k == 'S1' else 'seed0'
     if kind == 'ppm':
@@ -277,8 +312,10 @@ def replay_walk(arg):
                 continue
             _, o, k = s
             kind, obj, x = objs[o]
+            del _RAW[:]
             got = evaluate(kind, obj, x, k)
             kept.append((got, np.array(got, copy=True), step))          # results are values: checked again at the end
+            kept.extend((r_, np.array(r_, copy=True), step) for r_ in _RAW)
             exp = expected(kind, k, fixed=objfixed[o])
             cnt['evaluations'] = cnt.get('evaluations', 0) + 1
             if got.shape != exp.shape or not np.allclose(got, exp, rtol=1e-9, atol=1e-10):
@@ -288,6 +325,33 @@ def replay_walk(arg):
         except Exception as e:
             fail('Pure', type(e).__name__, dict(error=repr(e)), step)
             return fails, cnt
+    # every object is evaluated once more, at ANOTHER point: a result that is a view of an internal buffer changes now
+    for o in (1, 2):
+        kind, obj, x = objs[o]
+        for k in ('S1', 'value', 'pointwise'):
+            try:
+                with warnings.catch_warnings():
+                    warnings.simplefilter('ignore')
+                    evaluate(kind, obj, np.asarray(x, dtype=float) * 1.07 + 0.013, k)
+            except Exception:
+                pass                # (the other point may be outside the support; only the retained results matter)
+    # epilogue of every walk: each kind of evaluation once more at the ORIGINAL point, sampling first -- whatever the walk did
+    # (and whatever sampling does), the answers are those of a fresh object
+    for o in (1, 2):
+        kind, obj, x = objs[o]
+        for k in ('sample', 'value', 'pointwise', 'S1', 'sample'):
+            try:
+                got = evaluate(kind, obj, x, k)
+                exp = expected(kind, k, fixed=objfixed[o])
+                cnt['evaluations'] = cnt.get('evaluations', 0) + 1
+                if got.shape != exp.shape or not np.allclose(got, exp, rtol=1e-9, atol=1e-10):
+                    fail('Pure', 'result_depends_on_history', dict(object=kind, evaluation=k, where='epilogue',
+                                                                    got=got.flatten()[:6].tolist(), expected=exp.flatten()[:6].tolist()))
+                    break
+            except Exception as e:
+                fail('Pure', type(e).__name__, dict(error=repr(e), where='epilogue', object=kind, evaluation=k))
+                break
+    cnt['results_retained'] = len(kept)
     for ref_, cp_, st_ in kept:
         if not np.array_equal(ref_, cp_, equal_nan=True):
             fail('Pure', 'earlier_result_changed_later', dict(step=st_))
